@@ -302,6 +302,17 @@ func ops() []op {
 
 var allOps = ops()
 
+// the operations used in depth-3 histories: everything on file 0 that is not tied to its second rule
+var depth3Ops = func() (out []int) {
+	for i, o := range allOps {
+		if strings.Contains(o.name, "f1") || strings.HasSuffix(o.name, " r1") {
+			continue
+		}
+		out = append(out, i)
+	}
+	return out
+}()
+
 // special operations that are not tree edits
 const (
 	opRevert    = -1 // restore the tree of the previous commit
@@ -335,8 +346,21 @@ func body(c *explore.Chooser) *explore.Case {
 	}
 	var steps []step
 	nspecial := 3
+	// depth-3 histories (thorough) are drawn from the operations on the first file and its first rule plus the
+	// specials: complete over that alphabet instead of a time-capped sample of 62^3
+	opIndex := func(k int) int { return k }
+	nops := len(allOps)
+	if depth == 3 {
+		nops = len(depth3Ops)
+		opIndex = func(k int) int { return depth3Ops[k] }
+	}
 	for d := 0; d < depth; d++ {
-		k := c.Free(len(allOps)+nspecial, fmt.Sprintf("op%d", d))
+		k := c.Free(nops+nspecial, fmt.Sprintf("op%d", d))
+		if k < nops {
+			k = opIndex(k)
+		} else {
+			k = len(allOps) + (k - nops)
+		}
 		switch {
 		case k < len(allOps):
 			nt := cur.clone()
@@ -588,7 +612,7 @@ var maxDepth = 2
 func main() {
 	explore.Main(&explore.Config{
 		Property: "C03", Level: "exploration",
-		Rule: fmt.Sprintf("all branch histories of depth <=d (d=2 quick, 3 thorough) over an alphabet of %d concrete edit operations (add/delete/rename file, rename+edit, add rule top/end, delete rule, change expr/label/annotation/for, add/remove rule-level and file-level pint comments, comment-only and blank-line edits, group interval, per file and rule index) over two base trees (plain; one with a byte-identical duplicate rule) plus revert-previous-commit and the base branch advancing after the fork (same file / other file); each history is built in a real git repository, the real GlobFinder+GitBranchFinder classify every HEAD rule, compared with a direct comparison of the generator's own base and HEAD records following file identity across renames", len(allOps)),
+		Rule: fmt.Sprintf("all branch histories of depth <=2 over an alphabet of %d concrete edit operations (thorough: also all of depth 3 over the operations on the first file and its first rule) (add/delete/rename file, rename+edit, add rule top/end, delete rule, change expr/label/annotation/for, add/remove rule-level and file-level pint comments, comment-only and blank-line edits, group interval, per file and rule index) over two base trees (plain; one with a byte-identical duplicate rule) plus revert-previous-commit and the base branch advancing after the fork (same file / other file); each history is built in a real git repository, the real GlobFinder+GitBranchFinder classify every HEAD rule, compared with a direct comparison of the generator's own base and HEAD records following file identity across renames", len(allOps)),
 		Assumptions: []string{
 			"rename+edit keeps the file similar enough for git's rename detection; a rule both moved and modified may be reported renamed or modified",
 			"(kind, name) is unique per file in base variant 0; variant 1 has one byte-identical duplicate rule and states are compared as multisets per (file, kind, name)",
